@@ -11,6 +11,7 @@ mod c01;
 mod eng;
 mod c15;
 mod c14;
+mod c02;
 
 fn main() {
     let args: Vec<String> = std::env::args().collect();
@@ -28,6 +29,7 @@ fn main() {
         "c15" => c15::main15(rest),
         "c16" => c15::main16(rest),
         "c14" => c14::main(rest),
+        "c02" => c02::main(rest),
         other => {
             eprintln!("unknown property {other}");
             std::process::exit(2);
